@@ -3,6 +3,7 @@ package c02
 
 import (
 	"errors"
+	"runtime"
 
 	"github.com/csgura/fp"
 	"github.com/csgura/fp/as"
@@ -455,9 +456,32 @@ func VH_c02_future_apply_panics() {
 	if zz.Bool("inline") {
 		ex = []fp.Executor{inline{}}
 	}
+	// what is thrown: an arbitrary value, an error, or a genuine runtime error (nil map write, index out of
+	// range, nil dereference, failed type assertion)
+	kind := 0
+	if doPanic {
+		kind = zz.Choice("panic.kind", 6)
+	}
+	var nilMap map[int]int
+	var nilPtr *int
+	var anyV any = "s"
+	short := []int{1}
 	body := func() int {
 		if doPanic {
-			panic(pv)
+			switch kind {
+			case 0:
+				panic(pv)
+			case 1:
+				panic(eB)
+			case 2:
+				nilMap[1] = 1
+			case 3:
+				return short[x&1+1]
+			case 4:
+				return *nilPtr
+			case 5:
+				return anyV.(int)
+			}
 		}
 		return x
 	}
@@ -476,8 +500,17 @@ func VH_c02_future_apply_panics() {
 	if doPanic {
 		p1, ok1 := r1.Failed().Get().(panicker)
 		p2, ok2 := r2.Failed().Get().(panicker)
-		zz.Assert(r1.IsFailure() && ok1 && p1.Panic() == any(pv), "future.Apply: panic becomes a Failure exposing the panic value")
-		zz.Assert(r2.IsFailure() && ok2 && p2.Panic() == any(pv), "future.Apply2: panic becomes a Failure exposing the panic value")
+		zz.Assert(r1.IsFailure() && ok1 && r2.IsFailure() && ok2, "future.Apply/Apply2: any panic, runtime errors included, becomes a Failure")
+		switch kind {
+		case 0:
+			zz.Assert(p1.Panic() == any(pv) && p2.Panic() == any(pv), "future.Apply/Apply2: the Failure exposes the panic value")
+		case 1:
+			zz.Assert(p1.Panic() == any(eB) && p2.Panic() == any(eB), "future.Apply/Apply2: the Failure exposes a panicked error")
+		default:
+			_, re1 := p1.Panic().(runtime.Error)
+			_, re2 := p2.Panic().(runtime.Error)
+			zz.Assert(re1 && re2, "future.Apply/Apply2: the Failure exposes the runtime error")
+		}
 	} else {
 		zz.Assert(r1.IsSuccess() && r1.Get() == x, "future.Apply: normal return is a Success")
 		if retErr {
